@@ -143,4 +143,704 @@ theorem st_ptrs_append (l : List (Option HBuilder)) (x : Option HBuilder) :
     st_ptrs (l ++ [x]) = st_ptrs l ++ [x.map HBuilder.ptr] := by
   simp [st_ptrs]
 
+/-! ### the simulation relation -/
+
+/-- `st_R h w`: the `Arc` heap `h` represents the by-value world `w`.
+    * the session / builder tables have the same lengths and the same live entries;
+    * the cell a live handle points to exists and holds the value the specification gives that handle
+      (builders also have the same own header map);
+    * every cell's reference count is the number of live handles (sessions + builders) that point to
+      it — so `rc = 1` means that nobody else can see the cell. -/
+structure st_R (h : Heap) (w : Val) : Prop where
+  slen : h.sessions.length = w.sessions.length
+  blen : h.builders.length = w.builders.length
+  sessLive : ∀ i p, getAt h.sessions i = some p →
+    p < h.cells.length ∧ getAt w.sessions i = (h.cells[p]?).map Cell.val
+  sessDead : ∀ i, getAt h.sessions i = none → getAt w.sessions i = none
+  bldLive : ∀ i b, getAt h.builders i = some b →
+    b.ptr < h.cells.length ∧
+      getAt w.builders i = (h.cells[b.ptr]?).map (fun c => ⟨c.val, b.headers⟩)
+  bldDead : ∀ i, getAt h.builders i = none → getAt w.builders i = none
+  rc : ∀ p c, h.cells[p]? = some c → c.rc = st_cnt h.sessions p + st_cnt (st_ptrs h.builders) p
+
+theorem st_R_init : st_R {} {} := by
+  constructor <;> simp [getAt, st_cnt, st_ptrs]
+
+/-- the `∃ c`-form of the value clause for sessions -/
+theorem st_R.sess_cell {h : Heap} {w : Val} (r : st_R h w) {i p : Nat}
+    (hs : getAt h.sessions i = some p) :
+    ∃ c, h.cells[p]? = some c ∧ getAt w.sessions i = some c.val ∧ 1 ≤ c.rc := by
+  obtain ⟨hlt, hv⟩ := r.sessLive i p hs
+  refine ⟨h.cells[p], by simp [hlt], by simp [hv, hlt], ?_⟩
+  have := r.rc p h.cells[p] (by simp [hlt])
+  have := st_cnt_pos hs
+  omega
+
+/-- the `∃ c`-form of the value clause for builders -/
+theorem st_R.bld_cell {h : Heap} {w : Val} (r : st_R h w) {i : Nat} {b : HBuilder}
+    (hb : getAt h.builders i = some b) :
+    ∃ c, h.cells[b.ptr]? = some c ∧ getAt w.builders i = some ⟨c.val, b.headers⟩ ∧ 1 ≤ c.rc := by
+  obtain ⟨hlt, hv⟩ := r.bldLive i b hb
+  refine ⟨h.cells[b.ptr], by simp [hlt], by simp [hv, hlt], ?_⟩
+  have := r.rc b.ptr h.cells[b.ptr] (by simp [hlt])
+  have h2 : getAt (st_ptrs h.builders) i = some b.ptr := by rw [st_getAt_ptrs, hb]; rfl
+  have := st_cnt_pos h2
+  omega
+
+theorem st_R.sess_iff {h : Heap} {w : Val} (r : st_R h w) (i : Nat) :
+    (getAt h.sessions i).isSome = (getAt w.sessions i).isSome := by
+  cases hs : getAt h.sessions i with
+  | none => simp [r.sessDead i hs]
+  | some p => obtain ⟨c, _, hv, _⟩ := r.sess_cell hs; simp [hv]
+
+theorem st_R.bld_iff {h : Heap} {w : Val} (r : st_R h w) (i : Nat) :
+    (getAt h.builders i).isSome = (getAt w.builders i).isSome := by
+  cases hs : getAt h.builders i with
+  | none => simp [r.bldDead i hs]
+  | some p => obtain ⟨c, _, hv, _⟩ := r.bld_cell hs; simp [hv]
+
+/-- no live handle points at or beyond the end of the cell table -/
+theorem st_R.fresh_s {h : Heap} {w : Val} (r : st_R h w) {q : Nat} (hq : h.cells.length ≤ q) :
+    st_cnt h.sessions q = 0 :=
+  st_cnt_zero (fun i p hp => by have := (r.sessLive i p hp).1; omega)
+
+theorem st_R.fresh_b {h : Heap} {w : Val} (r : st_R h w) {q : Nat} (hq : h.cells.length ≤ q) :
+    st_cnt (st_ptrs h.builders) q = 0 :=
+  st_cnt_zero (fun i p hp => by
+    rw [st_getAt_ptrs] at hp
+    cases hb : getAt h.builders i with
+    | none => simp [hb] at hp
+    | some b =>
+      have := (r.bldLive i b hb).1
+      simp [hb] at hp; omega)
+
+/-! ### transitions -/
+
+/-- fresh cell + new session handle (`Session::new`) -/
+theorem st_R_allocS {h : Heap} {w : Val} (r : st_R h w) (v : BaseSettings) :
+    st_R { h with cells := h.cells ++ [⟨v, 1⟩], sessions := h.sessions ++ [some h.cells.length] }
+         { w with sessions := w.sessions ++ [some v] } := by
+  have := r.slen; have := r.blen; have := r.sessLive; have := r.sessDead
+  have := r.bldLive; have := r.bldDead; have := r.rc
+  have := r.fresh_s (Nat.le_refl _); have := r.fresh_b (Nat.le_refl _)
+  constructor
+  · grind
+  · grind
+  · grind [st_getAt_append]
+  · grind [st_getAt_append]
+  · grind [st_getAt_append]
+  · grind [st_getAt_append]
+  · grind [st_cnt_append]
+
+/-- fresh cell + new builder handle (`attohttpc::get(url)`) -/
+theorem st_R_allocB {h : Heap} {w : Val} (r : st_R h w) (v : BaseSettings) (hd : Headers) :
+    st_R { h with cells := h.cells ++ [⟨v, 1⟩],
+                  builders := h.builders ++ [some ⟨h.cells.length, hd⟩] }
+         { w with builders := w.builders ++ [some ⟨v, hd⟩] } := by
+  have := r.slen; have := r.blen; have := r.sessLive; have := r.sessDead
+  have := r.bldLive; have := r.bldDead; have := r.rc
+  have := r.fresh_s (Nat.le_refl _); have := r.fresh_b (Nat.le_refl _)
+  constructor
+  · grind
+  · grind
+  · grind [st_getAt_append]
+  · grind [st_getAt_append]
+  · grind [st_getAt_append]
+  · grind [st_getAt_append]
+  · grind [st_cnt_append, st_ptrs_append]
+
+/-- `Arc::clone` into a new session handle -/
+theorem st_R_shareS {h : Heap} {w : Val} (r : st_R h w) {s p : Nat} {c : Cell}
+    (hs : getAt h.sessions s = some p) (hc : h.cells[p]? = some c) :
+    st_R { h with cells := h.cells.set p { c with rc := c.rc + 1 }, sessions := h.sessions ++ [some p] }
+         { w with sessions := w.sessions ++ [some c.val] } := by
+  have := r.slen; have := r.blen; have := r.sessLive; have := r.sessDead
+  have := r.bldLive; have := r.bldDead; have := r.rc
+  constructor
+  · grind
+  · grind
+  · grind [st_getAt_append]
+  · grind [st_getAt_append]
+  · grind [st_getAt_append]
+  · grind [st_getAt_append]
+  · grind [st_cnt_append]
+
+/-- `Arc::clone` into a new builder handle -/
+theorem st_R_shareB {h : Heap} {w : Val} (r : st_R h w) {s p : Nat} {c : Cell}
+    (hs : getAt h.sessions s = some p) (hc : h.cells[p]? = some c) (hd : Headers) :
+    st_R { h with cells := h.cells.set p { c with rc := c.rc + 1 },
+                  builders := h.builders ++ [some ⟨p, hd⟩] }
+         { w with builders := w.builders ++ [some ⟨c.val, hd⟩] } := by
+  have := r.slen; have := r.blen; have := r.sessLive; have := r.sessDead
+  have := r.bldLive; have := r.bldDead; have := r.rc
+  constructor
+  · grind
+  · grind
+  · grind [st_getAt_append]
+  · grind [st_getAt_append]
+  · grind [st_getAt_append]
+  · grind [st_getAt_append]
+  · grind [st_cnt_append, st_ptrs_append]
+
+theorem st_ptrs_at {l : List (Option HBuilder)} {i : Nat} {b : HBuilder} (hb : getAt l i = some b) :
+    getAt (st_ptrs l) i = some b.ptr := by rw [st_getAt_ptrs, hb]; rfl
+
+/-- release a session handle -/
+theorem st_R_dropS {h : Heap} {w : Val} (r : st_R h w) {s p : Nat} {c : Cell}
+    (hs : getAt h.sessions s = some p) (hc : h.cells[p]? = some c) :
+    st_R { h with cells := h.cells.set p { c with rc := c.rc - 1 }, sessions := setAt h.sessions s none }
+         { w with sessions := setAt w.sessions s none } := by
+  have := r.slen; have := r.blen; have := r.sessLive; have := r.sessDead
+  have := r.bldLive; have := r.bldDead; have := r.rc
+  have key := fun q => st_cnt_setAt none q hs
+  have := st_cnt_pos hs
+  constructor
+  · grind [st_setAt_length]
+  · grind
+  · grind [st_getAt_setAt]
+  · grind [st_getAt_setAt]
+  · grind [st_getAt_setAt]
+  · grind [st_getAt_setAt]
+  · grind
+
+/-- release a builder handle -/
+theorem st_R_dropB {h : Heap} {w : Val} (r : st_R h w) {i : Nat} {b : HBuilder} {c : Cell}
+    (hb : getAt h.builders i = some b) (hc : h.cells[b.ptr]? = some c) :
+    st_R { h with cells := h.cells.set b.ptr { c with rc := c.rc - 1 }, builders := setAt h.builders i none }
+         { w with builders := setAt w.builders i none } := by
+  have := r.slen; have := r.blen; have := r.sessLive; have := r.sessDead
+  have := r.bldLive; have := r.bldDead; have := r.rc
+  have key := fun q => st_cnt_setAt none q (st_ptrs_at hb)
+  have := st_cnt_pos (st_ptrs_at hb)
+  constructor
+  · grind
+  · grind [st_setAt_length]
+  · grind [st_getAt_setAt]
+  · grind [st_getAt_setAt]
+  · grind [st_getAt_setAt]
+  · grind [st_getAt_setAt]
+  · grind [st_ptrs_setAt]
+
+/-- a builder's own header map changes; the settings pointer does not -/
+theorem st_R_hdrB {h : Heap} {w : Val} (r : st_R h w) {i : Nat} {b : HBuilder} {vb : VBuilder}
+    (hb : getAt h.builders i = some b) (hv : getAt w.builders i = some vb) (hd : Headers) :
+    st_R { h with builders := setAt h.builders i (some { b with headers := hd }) }
+         { w with builders := setAt w.builders i (some { vb with headers := hd }) } := by
+  have := r.slen; have := r.blen; have := r.sessLive; have := r.sessDead
+  have := r.bldLive; have := r.bldDead; have := r.rc
+  have key := fun q => st_cnt_setAt (some b.ptr) q (st_ptrs_at hb)
+  constructor
+  · grind
+  · grind [st_setAt_length]
+  · grind [st_getAt_setAt]
+  · grind [st_getAt_setAt]
+  · grind [st_getAt_setAt]
+  · grind [st_getAt_setAt]
+  · grind [st_ptrs_setAt]
+
+/-- what `Arc::make_mut` does to the heap -/
+theorem st_makeMut_cases (h : Heap) (p : Nat) (f : BaseSettings → BaseSettings) {c : Cell}
+    (hc : h.cells[p]? = some c) :
+    (c.rc = 1 ∧ h.makeMut p f = ({ h with cells := h.cells.set p { c with val := f c.val } }, p)) ∨
+    (c.rc ≠ 1 ∧ h.makeMut p f =
+      ({ h with cells := h.cells.set p { c with rc := c.rc - 1 } ++ [⟨f c.val, 1⟩] }, h.cells.length)) := by
+  unfold Heap.makeMut Heap.decr
+  simp only [hc]
+  by_cases h1 : c.rc = 1
+  · left; simp [h1]
+  · right; simp [h1]
+
+/-- `make_mut` through a session handle + store the returned pointer -/
+theorem st_R_mutS {h : Heap} {w : Val} (r : st_R h w) {s p : Nat} {c : Cell}
+    (hs : getAt h.sessions s = some p) (hc : h.cells[p]? = some c) (f : BaseSettings → BaseSettings) :
+    st_R { (h.makeMut p f).1 with sessions := setAt (h.makeMut p f).1.sessions s (some (h.makeMut p f).2) }
+         { w with sessions := setAt w.sessions s (some (f c.val)) } := by
+  have := r.slen; have := r.blen; have := r.sessLive; have := r.sessDead
+  have := r.bldLive; have := r.bldDead; have := r.rc
+  have := st_cnt_pos hs
+  have := st_getAt_lt hs
+  rcases st_makeMut_cases h p f hc with ⟨h1, e⟩ | ⟨h1, e⟩
+  · rw [e]
+    have key := fun q => st_cnt_setAt (some p) q hs
+    have u1 : ∀ j, j ≠ s → getAt h.sessions j ≠ some p := by
+      intro j hj e2
+      have := st_cnt_two hs e2 hj
+      grind
+    have u2 : ∀ j b, getAt h.builders j = some b → b.ptr ≠ p := by
+      intro j b hb e2
+      have := st_cnt_pos (st_ptrs_at hb)
+      grind
+    constructor
+    · grind [st_setAt_length]
+    · grind
+    · grind [st_getAt_setAt]
+    · grind [st_getAt_setAt]
+    · grind [st_getAt_setAt]
+    · grind [st_getAt_setAt]
+    · grind
+  · rw [e]
+    have key := fun q => st_cnt_setAt (some h.cells.length) q hs
+    have := r.fresh_s (Nat.le_refl _); have := r.fresh_b (Nat.le_refl _)
+    constructor
+    · grind [st_setAt_length]
+    · grind
+    · grind [st_getAt_setAt]
+    · grind [st_getAt_setAt]
+    · grind [st_getAt_setAt]
+    · grind [st_getAt_setAt]
+    · grind
+
+/-- `make_mut` through a builder handle + store the returned pointer -/
+theorem st_R_mutB {h : Heap} {w : Val} (r : st_R h w) {i : Nat} {b : HBuilder} {c : Cell}
+    (hb : getAt h.builders i = some b) (hc : h.cells[b.ptr]? = some c) (f : BaseSettings → BaseSettings) :
+    st_R { (h.makeMut b.ptr f).1 with
+            builders := setAt (h.makeMut b.ptr f).1.builders i (some { b with ptr := (h.makeMut b.ptr f).2 }) }
+         { w with builders := setAt w.builders i (some ⟨f c.val, b.headers⟩) } := by
+  have := r.slen; have := r.blen; have := r.sessLive; have := r.sessDead
+  have := r.bldLive; have := r.bldDead; have := r.rc
+  have hp := st_ptrs_at hb
+  have := st_cnt_pos hp
+  have := st_getAt_lt hb
+  rcases st_makeMut_cases h b.ptr f hc with ⟨h1, e⟩ | ⟨h1, e⟩
+  · rw [e]
+    have key := fun q => st_cnt_setAt (some b.ptr) q hp
+    have u1 : ∀ j, getAt h.sessions j ≠ some b.ptr := by
+      intro j e2
+      have := st_cnt_pos e2
+      grind
+    have u2 : ∀ j b', j ≠ i → getAt h.builders j = some b' → b'.ptr ≠ b.ptr := by
+      intro j b' hj hb' e2
+      have := st_cnt_two hp (e2 ▸ st_ptrs_at hb') hj
+      grind
+    constructor
+    · grind
+    · grind [st_setAt_length]
+    · grind [st_getAt_setAt]
+    · grind [st_getAt_setAt]
+    · grind [st_getAt_setAt]
+    · grind [st_getAt_setAt]
+    · grind [st_ptrs_setAt]
+  · rw [e]
+    have key := fun q => st_cnt_setAt (some h.cells.length) q hp
+    have := r.fresh_s (Nat.le_refl _); have := r.fresh_b (Nat.le_refl _)
+    constructor
+    · grind
+    · grind [st_setAt_length]
+    · grind [st_getAt_setAt]
+    · grind [st_getAt_setAt]
+    · grind [st_getAt_setAt]
+    · grind [st_getAt_setAt]
+    · grind [st_ptrs_setAt]
+
+theorem st_setAt_none_dead {α} {l : List (Option α)} {i : Nat} (h : getAt l i = none) :
+    setAt l i none = l := by
+  unfold setAt
+  split
+  · rename_i hi
+    unfold getAt at h
+    have e : l[i]? = some l[i] := by simp [hi]
+    rw [e] at h
+    have h2 : l[i] = none := by simpa using h
+    rw [← h2]; exact List.set_getElem_self hi
+  · rfl
+
+/-- one step: the relation is preserved and the observations are equal -/
+theorem st_step {h : Heap} {w : Val} (r : st_R h w) (op : SOp) :
+    st_R (h.step op).1 (w.step op).1 ∧ (h.step op).2 = (w.step op).2 := by
+  cases op with
+  | newSession =>
+    exact ⟨st_R_allocS r {}, by first | trivial | rfl⟩
+  | cloneSession s =>
+    simp only [Heap.step, Val.step]
+    cases hs : getAt h.sessions s with
+    | none => simp only [r.sessDead s hs]; exact ⟨r, by first | trivial | rfl⟩
+    | some p =>
+      obtain ⟨c, hc, hv, _⟩ := r.sess_cell hs
+      simp only [hv, Heap.incr, hc]
+      exact ⟨st_R_shareS r hs hc, by first | trivial | rfl⟩
+  | sessSet s f v =>
+    simp only [Heap.step, Val.step]
+    cases hs : getAt h.sessions s with
+    | none => simp only [r.sessDead s hs]; exact ⟨r, by first | trivial | rfl⟩
+    | some p =>
+      obtain ⟨c, hc, hv, _⟩ := r.sess_cell hs
+      simp only [hv]
+      exact ⟨st_R_mutS r hs hc _, by first | trivial | rfl⟩
+  | sessHeader s n v =>
+    simp only [Heap.step, Val.step]
+    cases hs : getAt h.sessions s with
+    | none => simp only [r.sessDead s hs]; exact ⟨r, by first | trivial | rfl⟩
+    | some p =>
+      obtain ⟨c, hc, hv, _⟩ := r.sess_cell hs
+      simp only [hv]
+      exact ⟨st_R_mutS r hs hc _, by first | trivial | rfl⟩
+  | sessAppend s n v =>
+    simp only [Heap.step, Val.step]
+    cases hs : getAt h.sessions s with
+    | none => simp only [r.sessDead s hs]; exact ⟨r, by first | trivial | rfl⟩
+    | some p =>
+      obtain ⟨c, hc, hv, _⟩ := r.sess_cell hs
+      simp only [hv]
+      exact ⟨st_R_mutS r hs hc _, by first | trivial | rfl⟩
+  | create so =>
+    cases so with
+    | none => exact ⟨st_R_allocB r {} [], by first | trivial | rfl⟩
+    | some s =>
+      simp only [Heap.step, Val.step]
+      cases hs : getAt h.sessions s with
+      | none => simp only [r.sessDead s hs]; exact ⟨r, by first | trivial | rfl⟩
+      | some p =>
+        obtain ⟨c, hc, hv, _⟩ := r.sess_cell hs
+        simp only [hv, Heap.incr, Heap.cell, hc]
+        exact ⟨st_R_shareB r hs hc _, by first | trivial | rfl⟩
+  | bldSet b f v =>
+    simp only [Heap.step, Val.step]
+    cases hb : getAt h.builders b with
+    | none => simp only [r.bldDead b hb]; exact ⟨r, by first | trivial | rfl⟩
+    | some bl =>
+      obtain ⟨c, hc, hv, _⟩ := r.bld_cell hb
+      simp only [hv]
+      exact ⟨st_R_mutB r hb hc _, by first | trivial | rfl⟩
+  | bldHeader b n v =>
+    simp only [Heap.step, Val.step]
+    cases hb : getAt h.builders b with
+    | none => simp only [r.bldDead b hb]; exact ⟨r, by first | trivial | rfl⟩
+    | some bl =>
+      obtain ⟨c, hc, hv, _⟩ := r.bld_cell hb
+      simp only [hv]
+      exact ⟨st_R_hdrB r hb hv _, by first | trivial | rfl⟩
+  | bldAppend b n v =>
+    simp only [Heap.step, Val.step]
+    cases hb : getAt h.builders b with
+    | none => simp only [r.bldDead b hb]; exact ⟨r, by first | trivial | rfl⟩
+    | some bl =>
+      obtain ⟨c, hc, hv, _⟩ := r.bld_cell hb
+      simp only [hv]
+      exact ⟨st_R_hdrB r hb hv _, by first | trivial | rfl⟩
+  | dropSession s =>
+    simp only [Heap.step, Val.step]
+    cases hs : getAt h.sessions s with
+    | none =>
+      rw [st_setAt_none_dead (r.sessDead s hs)]
+      exact ⟨r, rfl⟩
+    | some p =>
+      obtain ⟨c, hc, hv, _⟩ := r.sess_cell hs
+      simp only [Heap.decr, hc]
+      exact ⟨st_R_dropS r hs hc, by first | trivial | rfl⟩
+  | dropBuilder b =>
+    simp only [Heap.step, Val.step]
+    cases hb : getAt h.builders b with
+    | none =>
+      rw [st_setAt_none_dead (r.bldDead b hb)]
+      exact ⟨r, rfl⟩
+    | some bl =>
+      obtain ⟨c, hc, hv, _⟩ := r.bld_cell hb
+      simp only [Heap.decr, hc]
+      exact ⟨st_R_dropB r hb hc, by first | trivial | rfl⟩
+  | obsSession s =>
+    simp only [Heap.step, Val.step]
+    cases hs : getAt h.sessions s with
+    | none => simp only [r.sessDead s hs]; exact ⟨r, by first | trivial | rfl⟩
+    | some p =>
+      obtain ⟨c, hc, hv, _⟩ := r.sess_cell hs
+      simp only [hv, Heap.cell, hc]
+      exact ⟨r, by first | trivial | rfl⟩
+  | obsBuilder b =>
+    simp only [Heap.step, Val.step]
+    cases hb : getAt h.builders b with
+    | none => simp only [r.bldDead b hb]; exact ⟨r, by first | trivial | rfl⟩
+    | some bl =>
+      obtain ⟨c, hc, hv, _⟩ := r.bld_cell hb
+      simp only [hv, Heap.cell, hc]
+      exact ⟨r, by first | trivial | rfl⟩
+
+
+/-- the two machines give the same observations from related states -/
+theorem st_run {h : Heap} {w : Val} (r : st_R h w) (ops : List SOp) : Heap.run h ops = Val.run w ops := by
+  induction ops generalizing h w with
+  | nil => rfl
+  | cons op ops ih =>
+    obtain ⟨r1, e⟩ := st_step r op
+    simp only [Heap.run, Val.run, e, ih r1]
+
+/-- states reached by the same history are related -/
+def Heap.exec (h : Heap) (ops : List SOp) : Heap := ops.foldl (fun h op => (h.step op).1) h
+def Val.exec (w : Val) (ops : List SOp) : Val := ops.foldl (fun w op => (w.step op).1) w
+
+theorem st_exec {h : Heap} {w : Val} (r : st_R h w) (ops : List SOp) : st_R (h.exec ops) (w.exec ops) := by
+  induction ops generalizing h w with
+  | nil => exact r
+  | cons op ops ih => exact ih (st_step r op).1
+
+/-! ### header maps as association lists -/
+
+theorem st_getAll_append_list (h g : Headers) (n : Bytes) :
+    Headers.getAll (h ++ g) n = Headers.getAll h n ++ Headers.getAll g n := by
+  simp [Headers.getAll]
+
+theorem st_getAll_single (n v n' : Bytes) :
+    Headers.getAll [(n, v)] n' = if n = n' then [v] else [] := by
+  by_cases h : n = n' <;> simp [Headers.getAll, h]
+
+theorem st_getAll_remove_self (h : Headers) (n : Bytes) : (h.remove n).getAll n = [] := by
+  simp only [Headers.getAll, Headers.remove, List.filter_filter]
+  rw [List.filter_eq_nil_iff.2]
+  · rfl
+  · intro a _; simp
+
+theorem st_getAll_remove_ne (h : Headers) {n n' : Bytes} (hne : n' ≠ n) :
+    (h.remove n).getAll n' = h.getAll n' := by
+  simp only [Headers.getAll, Headers.remove, List.filter_filter]
+  congr 1
+  apply List.filter_congr
+  intro a _
+  by_cases e : a.1 = n'
+  · simp [e, hne]
+  · simp [e]
+
+theorem st_getAll_insert_self (h : Headers) (n v : Bytes) : (h.insert n v).getAll n = [v] := by
+  simp [Headers.insert, st_getAll_append_list, st_getAll_remove_self, st_getAll_single]
+
+theorem st_getAll_insert_ne (h : Headers) (n v : Bytes) {n' : Bytes} (hne : n' ≠ n) :
+    (h.insert n v).getAll n' = h.getAll n' := by
+  have : ¬ n = n' := fun e => hne e.symm
+  simp [Headers.insert, st_getAll_append_list, st_getAll_remove_ne h hne, st_getAll_single, this]
+
+theorem st_getAll_append_self (h : Headers) (n v : Bytes) : (h.append n v).getAll n = h.getAll n ++ [v] := by
+  simp [Headers.append, st_getAll_append_list, st_getAll_single]
+
+theorem st_getAll_append_ne (h : Headers) (n v : Bytes) {n' : Bytes} (hne : n' ≠ n) :
+    (h.append n v).getAll n' = h.getAll n' := by
+  have : ¬ n = n' := fun e => hne e.symm
+  simp [Headers.append, st_getAll_append_list, st_getAll_single, this]
+
+theorem st_contains_iff (h : Headers) (n : Bytes) : h.contains n = !(h.getAll n).isEmpty := by
+  induction h with
+  | nil => rfl
+  | cons a h ih =>
+    by_cases e : a.1 = n
+    · simp [Headers.contains, Headers.getAll, e]
+    · simp only [Headers.contains, Headers.getAll] at ih
+      simp [Headers.contains, Headers.getAll, e, ih]
+
+theorem st_contains_insert (h : Headers) (n v n' : Bytes) :
+    (h.insert n v).contains n' = (n == n' || h.contains n') := by
+  by_cases e : n = n'
+  · subst e; simp [st_contains_iff, st_getAll_insert_self]
+  · have : n' ≠ n := fun x => e x.symm
+    simp [st_contains_iff, st_getAll_insert_ne h n v this, e]
+
+theorem st_contains_remove (h : Headers) (n n' : Bytes) :
+    (h.remove n).contains n' = (n != n' && h.contains n') := by
+  by_cases e : n = n'
+  · subst e; simp [st_contains_iff, st_getAll_remove_self]
+  · have : n' ≠ n := fun x => e x.symm
+    simp [st_contains_iff, st_getAll_remove_ne h this, e]
+
+theorem st_getAll_insertIfMissing (h : Headers) (n v n' : Bytes) :
+    (h.insertIfMissing n v).getAll n' =
+      if n = n' ∧ h.contains n = false then [v] else h.getAll n' := by
+  unfold Headers.insertIfMissing
+  cases hc : h.contains n with
+  | true => simp
+  | false =>
+    simp only [Bool.false_eq_true, if_false, and_true]
+    by_cases e : n = n'
+    · subst e
+      have : h.getAll n = [] := by
+        have := st_contains_iff h n
+        rw [hc] at this
+        simpa using this
+      simp [st_getAll_append_list, st_getAll_single, this]
+    · simp [st_getAll_append_list, st_getAll_single, e]
+
+theorem st_contains_insertIfMissing (h : Headers) (n v n' : Bytes) :
+    (h.insertIfMissing n v).contains n' = (n == n' || h.contains n') := by
+  unfold Headers.insertIfMissing
+  cases hc : h.contains n with
+  | true =>
+    by_cases e : n = n'
+    · subst e; simp [hc]
+    · simp [e]
+  | false =>
+    simp only [Bool.false_eq_true, if_false]
+    simp [Headers.contains, Bool.or_comm]
+
+/-! ### `try_prepare` -/
+
+/-- the middle stages of `tryPrepare`: Connection, framing, Content-Type -/
+def st_prepMid (h : Headers) (b : BodyM) : Headers :=
+  let h := h.insert (hName "connection") (str "close")
+  let h := (h.remove nameCL).remove nameTE
+  let h := match b.kind with
+    | .empty => h
+    | .known len => h.insert nameCL (natDigits len)
+    | .chunked => h.insert nameTE (str "chunked")
+  match b.contentType with
+    | some t => h.insert (hName "content-type") t
+    | none => h
+
+theorem st_tryPrepare_eq (s : PrepSettings) (h : Headers) (b : BodyM) :
+    tryPrepare s h b =
+      ((st_prepMid (if s.allowCompression then h.insert (hName "accept-encoding") (str "gzip, deflate") else h) b
+        ).insertIfMissing (hName "accept") (str "*/*")).insertIfMissing (hName "user-agent") s.userAgent := rfl
+
+theorem st_prepMid_getAll (h : Headers) (b : BodyM) (n : Bytes) (h1 : n ≠ hName "connection")
+    (h2 : n ≠ nameCL) (h3 : n ≠ nameTE) (h4 : n ≠ hName "content-type") :
+    (st_prepMid h b).getAll n = h.getAll n := by
+  unfold st_prepMid
+  cases b.contentType <;> cases b.kind <;>
+    simp [st_getAll_insert_ne _ _ _ h1, st_getAll_insert_ne _ _ _ h2, st_getAll_insert_ne _ _ _ h3,
+      st_getAll_insert_ne _ _ _ h4, st_getAll_remove_ne _ h2, st_getAll_remove_ne _ h3]
+
+theorem st_prepMid_contains (h : Headers) (b : BodyM) (n : Bytes) (h1 : n ≠ hName "connection")
+    (h2 : n ≠ nameCL) (h3 : n ≠ nameTE) (h4 : n ≠ hName "content-type") :
+    (st_prepMid h b).contains n = h.contains n := by
+  rw [st_contains_iff, st_contains_iff, st_prepMid_getAll h b n h1 h2 h3 h4]
+
+/-! ### locality in the specification machine: what an operation can change -/
+
+/-- the (existing) session an operation writes to -/
+def SOp.sessTarget : SOp → Option Nat
+  | .sessSet s _ _ | .sessHeader s _ _ | .sessAppend s _ _ | .dropSession s => some s
+  | _ => none
+
+/-- the (existing) builder an operation writes to -/
+def SOp.bldTarget : SOp → Option Nat
+  | .bldSet b _ _ | .bldHeader b _ _ | .bldAppend b _ _ | .dropBuilder b => some b
+  | _ => none
+
+/-- the effect of an operation on the value owned by session `s` -/
+def SOp.actS (op : SOp) (s : Nat) (x : Option BaseSettings) : Option BaseSettings :=
+  match op with
+  | .sessSet s' f v => if s' = s then x.map (fun st => { st with sc := st.sc.set f v }) else x
+  | .sessHeader s' n v => if s' = s then x.map (fun st => { st with headers := st.headers.insert n v }) else x
+  | .sessAppend s' n v => if s' = s then x.map (fun st => { st with headers := st.headers.append n v }) else x
+  | .dropSession s' => if s' = s then none else x
+  | _ => x
+
+/-- the effect of an operation on the value owned by builder `b` -/
+def SOp.actB (op : SOp) (b : Nat) (x : Option VBuilder) : Option VBuilder :=
+  match op with
+  | .bldSet b' f v =>
+    if b' = b then x.map (fun bl => { bl with settings := { bl.settings with sc := bl.settings.sc.set f v } }) else x
+  | .bldHeader b' n v => if b' = b then x.map (fun bl => { bl with headers := bl.headers.insert n v }) else x
+  | .bldAppend b' n v => if b' = b then x.map (fun bl => { bl with headers := bl.headers.append n v }) else x
+  | .dropBuilder b' => if b' = b then none else x
+  | _ => x
+
+theorem st_actS_untargeted {op : SOp} {s : Nat} (h : op.sessTarget ≠ some s) (x : Option BaseSettings) :
+    op.actS s x = x := by
+  cases op <;> simp_all [SOp.actS, SOp.sessTarget]
+
+theorem st_actB_untargeted {op : SOp} {b : Nat} (h : op.bldTarget ≠ some b) (x : Option VBuilder) :
+    op.actB b x = x := by
+  cases op <;> simp_all [SOp.actB, SOp.bldTarget]
+
+theorem st_val_slen_mono (w : Val) (op : SOp) : w.sessions.length ≤ (w.step op).1.sessions.length := by
+  cases op with
+  | create so => cases so <;> simp only [Val.step] <;> (try split) <;> simp
+  | _ => simp only [Val.step] <;> (try split) <;> simp [st_setAt_length]
+
+theorem st_val_blen_mono (w : Val) (op : SOp) : w.builders.length ≤ (w.step op).1.builders.length := by
+  cases op with
+  | create so => cases so <;> simp only [Val.step] <;> (try split) <;> simp
+  | _ => simp only [Val.step] <;> (try split) <;> simp [st_setAt_length]
+
+/-- one step changes session `s` exactly by the operation's action on `s` -/
+theorem st_val_sess_step (w : Val) (op : SOp) {s : Nat} (hs : s < w.sessions.length) :
+    getAt (w.step op).1.sessions s = op.actS s (getAt w.sessions s) := by
+  cases op with
+  | create so => cases so <;> simp only [Val.step, SOp.actS] <;> (try split) <;> rfl
+  | _ =>
+    simp only [Val.step, SOp.actS] <;> (try split) <;>
+      grind [st_getAt_setAt, st_getAt_append]
+
+theorem st_val_bld_step (w : Val) (op : SOp) {b : Nat} (hb : b < w.builders.length) :
+    getAt (w.step op).1.builders b = op.actB b (getAt w.builders b) := by
+  cases op with
+  | create so => cases so <;> simp only [Val.step, SOp.actB] <;> (try split) <;>
+      grind [st_getAt_setAt, st_getAt_append]
+  | _ =>
+    simp only [Val.step, SOp.actB] <;> (try split) <;>
+      grind [st_getAt_setAt, st_getAt_append]
+
+theorem st_val_exec_cons (w : Val) (op : SOp) (ops : List SOp) :
+    w.exec (op :: ops) = (w.step op).1.exec ops := rfl
+
+theorem st_heap_exec_cons (h : Heap) (op : SOp) (ops : List SOp) :
+    h.exec (op :: ops) = (h.step op).1.exec ops := rfl
+
+theorem st_val_exec_append (w : Val) (ops1 ops2 : List SOp) :
+    w.exec (ops1 ++ ops2) = (w.exec ops1).exec ops2 := by simp [Val.exec]
+
+theorem st_heap_exec_append (h : Heap) (ops1 ops2 : List SOp) :
+    h.exec (ops1 ++ ops2) = (h.exec ops1).exec ops2 := by simp [Heap.exec]
+
+/-- a history changes session `s` exactly by the actions of its operations on `s`, in order -/
+theorem st_val_sess_exec (w : Val) (ops : List SOp) {s : Nat} (hs : s < w.sessions.length) :
+    getAt (w.exec ops).sessions s = ops.foldl (fun x op => op.actS s x) (getAt w.sessions s) := by
+  induction ops generalizing w with
+  | nil => rfl
+  | cons op ops ih =>
+    rw [st_val_exec_cons, ih _ (Nat.lt_of_lt_of_le hs (st_val_slen_mono w op)), st_val_sess_step w op hs]
+    rfl
+
+theorem st_val_bld_exec (w : Val) (ops : List SOp) {b : Nat} (hb : b < w.builders.length) :
+    getAt (w.exec ops).builders b = ops.foldl (fun x op => op.actB b x) (getAt w.builders b) := by
+  induction ops generalizing w with
+  | nil => rfl
+  | cons op ops ih =>
+    rw [st_val_exec_cons, ih _ (Nat.lt_of_lt_of_le hb (st_val_blen_mono w op)), st_val_bld_step w op hb]
+    rfl
+
+theorem st_foldl_actS_untargeted (ops : List SOp) (s : Nat) (h : ∀ op ∈ ops, op.sessTarget ≠ some s)
+    (x : Option BaseSettings) : ops.foldl (fun x op => op.actS s x) x = x := by
+  induction ops generalizing x with
+  | nil => rfl
+  | cons op ops ih =>
+    simp only [List.foldl_cons]
+    rw [st_actS_untargeted (h op (by simp)), ih (fun o ho => h o (by simp [ho]))]
+
+theorem st_foldl_actB_untargeted (ops : List SOp) (b : Nat) (h : ∀ op ∈ ops, op.bldTarget ≠ some b)
+    (x : Option VBuilder) : ops.foldl (fun x op => op.actB b x) x = x := by
+  induction ops generalizing x with
+  | nil => rfl
+  | cons op ops ih =>
+    simp only [List.foldl_cons]
+    rw [st_actB_untargeted (h op (by simp)), ih (fun o ho => h o (by simp [ho]))]
+
+/-- what `obsSession` / `obsBuilder` show, as functions of the owned value -/
+def st_viewS (st : BaseSettings) : Obs := { sc := st.sc, sessHeaders := st.headers, reqHeaders := [] }
+def st_viewB (bl : VBuilder) : Obs :=
+  { sc := bl.settings.sc, sessHeaders := bl.settings.headers, reqHeaders := bl.headers }
+
+theorem st_val_obsS (w : Val) (s : Nat) :
+    (w.step (.obsSession s)).2 = (getAt w.sessions s).map st_viewS := by
+  simp only [Val.step]; cases getAt w.sessions s <;> rfl
+
+theorem st_val_obsB (w : Val) (b : Nat) :
+    (w.step (.obsBuilder b)).2 = (getAt w.builders b).map st_viewB := by
+  simp only [Val.step]; cases getAt w.builders b <;> rfl
+
+/-- the observation list of a history followed by one more operation -/
+theorem st_val_run_snoc (w : Val) (ops : List SOp) (op : SOp) :
+    Val.run w (ops ++ [op]) = Val.run w ops ++ [((w.exec ops).step op).2] := by
+  induction ops generalizing w with
+  | nil => rfl
+  | cons o ops ih => simp only [List.cons_append, Val.run, ih, st_val_exec_cons]
+
+theorem st_heap_run_snoc (h : Heap) (ops : List SOp) (op : SOp) :
+    Heap.run h (ops ++ [op]) = Heap.run h ops ++ [((h.exec ops).step op).2] := by
+  induction ops generalizing h with
+  | nil => rfl
+  | cons o ops ih => simp only [List.cons_append, Heap.run, ih, st_heap_exec_cons]
+
+/-- every state the code can reach is related to the state the specification reaches -/
+theorem st_reach (hist : List SOp) : st_R (Heap.exec {} hist) (Val.exec {} hist) := st_exec st_R_init hist
+
+/-- observations in reachable code states are the specification's observations -/
+theorem st_obs_reach (hist : List SOp) (op : SOp) :
+    ((Heap.exec {} hist).step op).2 = ((Val.exec {} hist).step op).2 := (st_step (st_reach hist) op).2
+
 end Atto
